@@ -23,7 +23,7 @@ theorem codonless_sequence (c : CDS) (h : WFCDS c)
   rw [h2, triples_short lk (by omega)]; rfl
 
 /-- every derived answer on a codon-less CDS: no codon, empty protein, no start, no in-frame stop;
-    `has_valid_stop` is the one predicate that still refuses (`Codon("")` raises ValueError) -/
+    no valid stop (since 7757ccc: `False`, no longer ValueError from `Codon("")`) -/
 theorem codonless_answers (c : CDS) (h : WFCDS c)
     (hshallow : shallowTrim (exonWalk c.loc (specFrames c)) = true)
     (hkept : c.loc.blocks.length = 1 ∨ cdsKept c.loc (specFrames c) ≠ [])
@@ -34,7 +34,7 @@ theorem codonless_answers (c : CDS) (h : WFCDS c)
     hasCanonicalStartCodon c = .ok false ∧
     hasStartCodonIn c table = .ok false ∧
     hasInFrameStop c = .ok false ∧
-    ans (hasValidStop c) = none := by
+    hasValidStop c = .ok false := by
   have hseq := codonless_sequence c h hshallow hkept chrom hs hless
   refine ⟨?_, ?_, ?_, ?_, ?_, ?_⟩
   · simp [scanCodons, hseq, bind, Except.bind, chunks3, scanCodons.go, pure, Except.pure]
@@ -42,7 +42,7 @@ theorem codonless_answers (c : CDS) (h : WFCDS c)
   · simp [hasCanonicalStartCodon, firstCodon, hseq, bind, Except.bind, chunks3, pure, Except.pure]
   · simp [hasStartCodonIn, firstCodon, hseq, bind, Except.bind, chunks3, pure, Except.pure]
   · simp [hasInFrameStop, translate, hseq, bind, Except.bind, upperStr, chunks3, translateLoop, pure, Except.pure]
-  · simp [hasValidStop, hseq, bind, Except.bind, pySlice, mkCodon, upperStr, throw, throwThe, MonadExceptOf.throw]
+  · simp [hasValidStop, hseq, bind, Except.bind, pure, Except.pure]
 
 /-- `num_codons` of a codon-less CDS is 0 -/
 theorem codonless_numCodons (c : CDS) (h : WFCDS c)
